@@ -81,6 +81,7 @@ CLAIMS.update({
              'ingest releases the same amount on every exit; L2 every while-cycle of every SimPy process yields; '
              'L3 batch partitions are released at workflow end (release judged by its effects); L4 every [-1]/pop on a tier stored list and every '
              'free-list remove is dominated by its precondition; L6 an algorithm takes a machine off its per-round free list only when it proposes it; '
+             'L10/L11 every attribute and name read in a function reachable from the simulation entry points has a definition that can precede the read (else AttributeError/NameError); '
              'L5/L7/L8 adopt the life-cycle, typestate, reservation-return and pending-volume rules of C08, C04, C09, C18.',
         note='Each clause is necessary: its violation makes a feasible configuration block forever or raise. Sufficiency is not claimed.',
         ref='DESIGN.md section 4, C05'),
@@ -136,7 +137,7 @@ CLAIMS.update({
         ref='DESIGN.md section 4, C03'),
     'C04': dict(
         technique='typestate lint over all task_status writes, move/pairing path rules, loop-shape rule for the termination predicate; adopts C19 and C11.U3',
-        text='Static necessary conditions: hand-off stored->scheduled is one pop+append and queueing+spawn happen together; task '
+        text='Static necessary conditions: hand-off stored->scheduled is one pop+append handing out the moved observation and queueing+spawn happen together; task '
              'status writes follow the life cycle with FINISHED only under the completion test; a submitted task leaves '
              'UNSCHEDULED at once, stale proposals are refused, duplicates in a round are skipped; finished tasks (only) leave '
              'the plan; workflows close only when nothing is left; start() returns only when is_finished(); the scheduler releases reservations itself (C09.R4 adopted); the hot buffer hands out for processing the observation it moves to the cold tier (T10).',
